@@ -3189,8 +3189,15 @@ class UTPM(Ring, RawAlgorithmsMixIn):
 
         """
 
-        in_X = numpy.array(in_X)
-        Rb,Cb = numpy.shape(in_X)
+        # build the (Rb,Cb) object array explicitly: numpy.array would try to
+        # descend into the UTPM instances
+        Rb = len(in_X)
+        Cb = len(in_X[0])
+        tmp = numpy.empty((Rb,Cb), dtype=object)
+        for r in range(Rb):
+            for c in range(Cb):
+                tmp[r,c] = in_X[r][c]
+        in_X = tmp
 
         # find the degree D and number of directions P
         D = 0; 	P = 0;
@@ -3211,7 +3218,8 @@ class UTPM(Ring, RawAlgorithmsMixIn):
         colsums = numpy.array([ numpy.sum(cols[:c]) for c in range(0,Cb+1)],dtype=int)
 
         # create new matrix where the blocks will be copied into
-        tc = numpy.zeros((D, P, rowsums[-1],colsums[-1]))
+        dtype = numpy.result_type(*[x.data.dtype for x in in_X.ravel()])
+        tc = numpy.zeros((D, P, rowsums[-1],colsums[-1]), dtype=dtype)
         for r in range(Rb):
             for c in range(Cb):
                 tc[:,:,rowsums[r]:rowsums[r+1], colsums[c]:colsums[c+1]] = in_X[r,c].data[:,:,:,:]
